@@ -3,7 +3,9 @@
 
 mod ctx;
 mod rng;
+mod refimpl;
 mod p17;
+mod p18;
 
 use ctx::{Ctx, Tier};
 use std::path::PathBuf;
@@ -66,6 +68,7 @@ fn main() {
     let mut c = Ctx::new(&prop, tier, seed, shard, nshards, scale, &mode, time_limit, replay, out);
     match prop.as_str() {
         "C17" => p17::run(&mut c),
+        "C18" => p18::run(&mut c),
         _ => {
             eprintln!("unknown property {}", prop);
             std::process::exit(2)
